@@ -78,6 +78,12 @@ func c05Oracle(c ledgerCase, blocks []*blockObs) []ev.Finding {
 			charge := new(big.Int).Mul(new(big.Int).SetUint64(g), p)
 			if t.Class == "committed-ok" {
 				charge.Add(charge, t.Eth.Value())
+				switch t.Spec.Kind { // value moved by the precompile call on behalf of the sender
+				case KErc20Burn:
+					charge.Add(charge, big.NewInt(Erc20BurnAmount))
+				case KErc20Transfer:
+					charge.Add(charge, big.NewInt(Erc20TransferAmount))
+				}
 			}
 			add(t.Spec.Sender, new(big.Int).Neg(charge))
 		}
